@@ -134,6 +134,20 @@ fn must_differ<T: Eq + Ord + Hash>(a: &T, b: &T, what: &str) -> Option<Violation
 
 fn different_leaf(v: &Value) -> Value { if matches!(v, Value::Null) { Value::Boolean(true) } else { Value::Null } }
 
+/// Change exactly one leaf somewhere inside `v` (descending into arrays and objects at random).
+fn change_one_deep_leaf(v: &mut Value, rng: &mut Rng) {
+    match v {
+        Value::Array(a) if !a.is_empty() => { let i = rng.usize_below(a.len()); change_one_deep_leaf(&mut a[i], rng) }
+        Value::Object(o) if !o.is_empty() => {
+            let i = rng.usize_below(o.len());
+            if let Some((_, slot)) = o.iter_mut().nth(i) { change_one_deep_leaf(slot, rng) }
+        }
+        Value::Number(n) => { *v = Value::Number(if n.as_str() == "7" { json_syntax::NumberBuf::new("8".as_bytes().into()).unwrap() } else { json_syntax::NumberBuf::new("7".as_bytes().into()).unwrap() }) }
+        Value::String(s) => { let mut t = s.as_str().to_string(); t.push('!'); *v = Value::String(t.as_str().into()) }
+        other => *other = different_leaf(other),
+    }
+}
+
 pub fn run_c14(sc: &HistSc, st: &mut Stats) -> super::c06::HistOutcome {
     use super::c06::HistOutcome;
     set_hash_config(hash_mode_of(&sc.hash_mode), sc.hash_seed);
@@ -179,6 +193,7 @@ pub fn run_c14(sc: &HistSc, st: &mut Stats) -> super::c06::HistOutcome {
             set_hash_config(hash_mode_of("good"), rng.next_u64());
             let mut near: Vec<(&'static str, Vec<Entry>)> = vec![];
             { let mut e = obs.clone(); e[j].value = different_leaf(&e[j].value); near.push(("one value changed", e)); }
+            { let mut e = obs.clone(); change_one_deep_leaf(&mut e[j].value, &mut rng); near.push(("one leaf changed inside a nested value", e)); }
             { let mut e = obs.clone(); let mut k = e[j].key.as_str().to_string(); k.push('~'); e[j].key = Key::from(k.as_str()); near.push(("one key changed", e)); }
             { let mut e = obs.clone(); let x = e[j].clone(); e.push(x); near.push(("one entry duplicated", e)); }
             { let mut e = obs.clone(); e.remove(j); near.push(("one entry removed", e)); }
@@ -197,6 +212,15 @@ pub fn run_c14(sc: &HistSc, st: &mut Stats) -> super::c06::HistOutcome {
     }
     // pool laws over snapshots, near copies and a few plain values
     for v in [V::Null, V::Bool(false), V::Num("1".into()), V::Num("1.0".into()), V::Str("a".into()), V::Arr(vec![]), V::Arr(vec![V::Null]), V::Obj(vec![])] { if pool.len() < 14 && rng.chance(1, 3) { pool.push(v.build()); } }
+    // a few freshly generated values together with a one-leaf near copy of each
+    for _ in 0..2 {
+        if pool.len() + 2 <= 16 {
+            let v = gen_v(&mut rng, 0).build();
+            let mut w = v.clone();
+            change_one_deep_leaf(&mut w, &mut rng);
+            pool.push(v); pool.push(w);
+        }
+    }
     let n = pool.len();
     let mut rels = vec![vec![None; n]; n];
     for i in 0..n {
